@@ -351,6 +351,45 @@ pub fn generate(seed: u64, thorough: bool, emit: &mut dyn FnMut(String)) {
             emit(format!("ident i {}", req_mat_i(h, w, &a)));
         }
     }
+    // sizes well beyond the exhaustive shape sweep (blocked / unrolled loops only show past their block size):
+    // every shared dimension 6..40 at least once, outer dimensions 1..24
+    let reps = if thorough { 12 } else { 2 };
+    for k in 6..=40usize {
+        for r in 0..reps {
+            let m = 1 + rng.below(if r == 0 { 3 } else { 24 }) as usize;
+            let n = 1 + rng.below(if r == 0 { 3 } else { 24 }) as usize;
+            let a = fill_i(&mut rng, m, k, 1);
+            let b = fill_i(&mut rng, k, n, 1);
+            emit(format!("dot i {} {}", req_mat_i(m, k, &a), req_mat_i(k, n, &b)));
+            let form = ["rr", "oo", "or", "ro"][(k + r) % 4];
+            emit(format!("mul i {form} {} {}", req_mat_i(m, k, &a), req_mat_i(k, n, &b)));
+            let af = fill_f(&mut rng, m, k);
+            let bf = fill_f(&mut rng, k, n);
+            emit(format!("dot f {} {}", req_mat_f(m, k, &af), req_mat_f(k, n, &bf)));
+            if r == 0 {
+                let c = fill_i(&mut rng, n, 2, 0);
+                emit(format!("assoc i {} {} {}", req_mat_i(m, k, &a), req_mat_i(k, n, &b), req_mat_i(n, 2, &c)));
+                emit(format!("tprod i {} {}", req_mat_i(m, k, &a), req_mat_i(k, n, &b)));
+                emit(format!("transpose i {}", req_mat_i(m, k, &a)));
+                emit(format!("smul i r {} 3", req_mat_i(m, k, &a)));
+            }
+        }
+    }
+    // float entries of every magnitude (a threshold that drops or clamps small products shows only there):
+    // exact powers of two, so products are exact and sums of a few of them too
+    for _ in 0..(if thorough { 2000 } else { 200 }) {
+        let m = 1 + rng.below(3) as usize;
+        let k = 1 + rng.below(4) as usize;
+        let n = 1 + rng.below(3) as usize;
+        let e0 = rng.range(-300, 250) as i32;
+        let mk = |rng: &mut Rng, len: usize| -> Vec<f64> {
+            (0..len).map(|_| rng.range(-3, 3) as f64 * 2f64.powi(e0 + rng.range(0, 20) as i32)).collect()
+        };
+        let af = mk(&mut rng, m * k);
+        let bf: Vec<f64> = (0..k * n).map(|_| rng.range(-3, 3) as f64 * 2f64.powi(rng.range(-20, 20) as i32)).collect();
+        emit(format!("dot f {} {}", req_mat_f(m, k, &af), req_mat_f(k, n, &bf)));
+        emit(format!("smul f r {} {}", req_mat_f(m, k, &af), rbits(2f64.powi(rng.range(-40, 40) as i32))));
+    }
     // laws on random (mostly conforming) triples
     let n_laws = if thorough { 20000 } else { 1500 };
     for _ in 0..n_laws {
